@@ -219,6 +219,9 @@ func checkC18(w *World, r *Report) {
 	r.Sub(checkC08, "OPEN-GUARD", "TIME-POL")
 	r.Sub(checkC10, "AL-DOM", "AL-GUARD")
 	r.Sub(checkC13, "EXT-BOUND")
+	// "sufficient funds": the amount a message must be able to pay is the amount its record requires
+	r.Sub(func(w *World, r *Report) { checkC01(w, r) }, "CREDIT-RECORD", "PAIR-RESERVE")
+	r.Sub(checkC04, "RD-SIB")
 }
 
 type vbRule struct {
